@@ -480,6 +480,16 @@ func (w *writer) methods(depth int, ms []*Method) {
 		w.desc(depth+1, m.Desc)
 		w.line(depth+1, "httpMethod = "+q(m.HTTPMethod))
 		w.line(depth+1, "httpPath = "+q(m.HTTPPath))
+		if m.Label != "" || m.Hidden {
+			w.line(depth+1, "options {")
+			if m.Label != "" {
+				w.line(depth+2, "label = "+q(m.Label))
+			}
+			if m.Hidden {
+				w.line(depth+2, "hidden = true")
+			}
+			w.line(depth+1, "}")
+		}
 		w.line(depth+1, "request {")
 		for _, f := range m.Request {
 			w.field(depth+2, "field", f)
@@ -535,9 +545,22 @@ func (w *writer) topic(depth int, t *Topic) {
 		for _, m := range t.Messages {
 			w.topicMessage(depth+1, "message", m)
 		}
+	case "event":
+		if t.EntityName != "" {
+			w.line(depth+1, "entityName = "+q(t.EntityName))
+		}
+		for _, m := range t.Messages {
+			w.topicMessage(depth+1, "message", m)
+		}
 	case "reqres":
 		w.topicMessage(depth+1, "request", t.Request)
+		for _, m := range t.MoreRequests {
+			w.topicMessage(depth+1, "request", m)
+		}
 		w.topicMessage(depth+1, "reply", t.Reply)
+		for _, m := range t.MoreReplies {
+			w.topicMessage(depth+1, "reply", m)
+		}
 	}
 	w.line(depth, "}")
 }
